@@ -298,7 +298,78 @@ let leaf_main () =
     print_string (string_of_n v); print_char '\n'
   done with End_of_file -> ())
 
+(* ---------- conc mode: replay of a real event trace (harness/conc.cc) in the extracted L2 model ---------- *)
+let tstate_name = function
+  | Idle -> "Idle" | S0 -> "S0" | S1 _ -> "S1" | E0 _ -> "E0" | E1 _ -> "E1" | EW _ -> "EW" | EC _ -> "EC"
+  | EF _ -> "EF" | CS (_, _, got) -> "CS" ^ string_of_int (List.length got) | CW _ -> "CW" | A0 -> "A0" | AR _ -> "AR" | AN _ -> "AN"
+  | AH (_, d) -> if d then "AHdirty" else "AH" | AU _ -> "AU"
+
+let conc_main (path : string) =
+  let ic = open_in path in
+  let st = ref None in
+  let hp0 = ref N0 and rc0 = ref N0 in
+  let nev = ref 0 in
+  let nin = ref 0 in
+  let fail lineno msg = Printf.printf "REPLAY-FAIL line %d: %s\n" lineno msg; Printf.printf "REPLAYED %d events\n" !nev; exit 0 in
+  let lineno = ref 0 in
+  let stepl (s : gstate) (t : int) (lbs : label list) : gstate option =
+    List.fold_left (fun acc lb -> match acc with None -> None | Some s -> gstep s (nat_of_int t) lb) (Some s) lbs in
+  (try while true do
+    let line = input_line ic in
+    incr lineno;
+    let toks = List.filter (fun s -> s <> "") (String.split_on_char ' ' (String.trim line)) in
+    match toks with
+    | "INIT" :: kvs ->
+      List.iter (fun kv -> match String.split_on_char '=' kv with
+        | ["hp"; v] -> hp0 := nn v | ["rc"; v] -> rc0 := nn v | _ -> ()) kvs
+    | "ARRS" :: sizes -> st := Some (ginit !hp0 !rc0 (List.map (fun x -> nat_of_int (int_of_string x)) sizes))
+    | "EV" :: t :: rest ->
+      let t = int_of_string t in
+      let s = (match !st with Some s -> s | None -> fail !lineno "no INIT") in
+      let nat x = nat_of_int (int_of_string x) in
+      let cur = s.thr (nat_of_int t) in
+      (match rest with
+       | ["RETL"] ->
+         (* the caller keeps an active locked_table: it must hold everything, with no unpublished write *)
+         (match cur with
+          | AH (_, false) -> ()
+          | _ -> fail !lineno (Printf.sprintf "thread %d returns from a locked_table operation in state %s" t (tstate_name cur)))
+       | ["RET"] ->
+         (match cur with
+          | Idle -> ()
+          | _ -> (match gstep s (nat_of_int t) (NEXT O) with
+                  | Some s' -> st := Some s'; incr nin
+                  | None -> fail !lineno (Printf.sprintf "thread %d returns to the caller in state %s (holding locks or mid-protocol)" t (tstate_name cur))))
+       | _ ->
+         let lb = (match rest with
+           | ["LD_RC"; v] -> LD_RC (nn v) | ["LD_HP"; v] -> LD_HP (nn v) | ["CURLOCKS"; a] -> CURLOCKS (nat a)
+           | ["LOCKREQ"; a; l] -> LOCKREQ (nat a, nat l) | ["LOCKED"; a; l] -> LOCKED (nat a, nat l)
+           | ["UNLOCK"; a; l] -> UNLOCK (nat a, nat l) | ["ST_HP"; v] -> ST_HP (nn v) | ["EMPLACE"; n] -> EMPLACE (nat n)
+           | ["FA_RC"] -> FA_RC | ["ALL_FIRST"; a] -> ALL_FIRST (nat a) | ["ALL_NEXT"; m] -> ALL_NEXT (m = "1")
+           | _ -> fail !lineno ("unknown event " ^ String.concat " " rest)) in
+         let one = S O and two = S (S O) and three = S (S (S O)) in
+         let attempts = [ []; [NEXT one]; [NEXT two]; [NEXT three]; [BEGIN one]; [BEGIN three];
+                          [NEXT O; BEGIN one]; [NEXT O; BEGIN three] ] in
+         let rec go = function
+           | [] -> fail !lineno (Printf.sprintf "event '%s' of thread %d is not a step of the model in state %s" (String.concat " " rest) t (tstate_name cur))
+           | pre :: more ->
+             (match stepl s t (pre @ [lb]) with
+              | Some s' -> st := Some s'; incr nev; nin := !nin + List.length pre
+              | None -> go more) in
+         go attempts)
+    | _ -> ()
+  done with End_of_file -> ());
+  (* at the end every thread must be idle and no lock held *)
+  (match !st with
+   | Some s ->
+     for t = 0 to 7 do
+       (match s.thr (nat_of_int t) with Idle -> () | x -> Printf.printf "REPLAY-FAIL end: thread %d ends in state %s\n" t (tstate_name x))
+     done
+   | None -> ());
+  Printf.printf "REPLAYED %d events (+%d internal)\n" !nev !nin
+
 let () =
+  if Array.length Sys.argv > 1 && Sys.argv.(1) = "--conc" then (conc_main Sys.argv.(2); exit 0);
   if Array.length Sys.argv > 1 && Sys.argv.(1) = "--judge" then (judge_main Sys.argv.(2) Sys.argv.(3); exit 0);
   if Array.length Sys.argv > 1 && Sys.argv.(1) = "--leaf" then (leaf_main (); exit 0);
   let ic = if Array.length Sys.argv > 1 then open_in Sys.argv.(1) else stdin in
